@@ -193,10 +193,10 @@ class CPDAG(pywhy_nx.MixedEdgeGraph, AncestralMixin, ConservativeMixin):
         return super().add_edge(u_of_edge, v_of_edge, edge_type, **attr)
 
     def add_edges_from(self, ebunch_to_add, edge_type, **attr):
-        from pywhy_graphs.algorithms.generic import _check_adding_cpdag_edge
-
+        ebunch_to_add = list(ebunch_to_add)
+        # validate on a scratch copy, so that every edge is checked against the graph and
+        # the edges of the batch before it, and a rejected batch leaves the graph untouched
+        scratch = self.copy()
         for u_of_edge, v_of_edge in ebunch_to_add:
-            _check_adding_cpdag_edge(
-                self, u_of_edge=u_of_edge, v_of_edge=v_of_edge, edge_type=edge_type
-            )
+            scratch.add_edge(u_of_edge, v_of_edge, edge_type)
         return super().add_edges_from(ebunch_to_add, edge_type, **attr)
